@@ -1690,7 +1690,11 @@ class TrajectoryStore:
                     species or [],
                 )
                 data[name] = val
-                if Dimension.POINT in field.dimensions and npoints is None:
+                if (
+                    Dimension.POINT in field.dimensions
+                    and npoints is None
+                    and val is not None
+                ):
                     if Dimension.SPECIES in field.dimensions:
                         # Get number of points from arbitrary entry in the
                         # SpeciesValues dictionary here (a field holding no
@@ -1872,10 +1876,13 @@ class TrajectoryStore:
                     values[sp] = v
                 return SpeciesValues(values)
             case (False, True, False):
-                # ThrustModeValues
-                return ThrustModeValues(
-                    {tm: var[index, ti] for ti, tm in enumerate(ThrustMode)}
-                )
+                # ThrustModeValues (nothing but fill values: the field was
+                # left unset)
+                modes = {tm: var[index, ti] for ti, tm in enumerate(ThrustMode)}
+                fill = var.get_fill_value()
+                if all(v == fill for v in modes.values()):
+                    return None
+                return ThrustModeValues(modes)
             case (True, True, False):
                 # SpeciesValues[ThrustModeValues]
                 #
